@@ -33,6 +33,9 @@ pub mod vpath {
         pub fn push(&mut self, p: &String) ensures final(self)@ == path_join(old(self)@, p@) { unimplemented!() }
         #[verifier::external_body]
         pub fn display(&self) -> Display { unimplemented!() }
+        // Path::canonicalize: the absolute form of the path of something that exists (an error otherwise; no more is stated)
+        #[verifier::external_body]
+        pub fn canonicalize(&self) -> (r: Result<PathBuf, crate::acme_common::error::IoError>) { unimplemented!() }
         #[verifier::external_body]
         pub fn to_str(&self) -> Option<&str> { unimplemented!() }
         // Path::symlink_metadata (lstat): about the directory entry itself - a symbolic link to a regular file is not a regular file
